@@ -24,7 +24,13 @@ type Deriver struct {
 	defs map[types.Object][]ast.Expr // expressions an object may derive from
 }
 
-func NewDeriver(fi *FuncInfo) *Deriver {
+// NewPureDeriver follows assignments only (no mutation through call arguments or receivers):
+// use it where "derives" must mean "is computed from", e.g. value-identity rules.
+func NewPureDeriver(fi *FuncInfo) *Deriver { return newDeriver(fi, false) }
+
+func NewDeriver(fi *FuncInfo) *Deriver { return newDeriver(fi, true) }
+
+func newDeriver(fi *FuncInfo, callEffects bool) *Deriver {
 	d := &Deriver{fi: fi, info: fi.Info(), defs: map[types.Object][]ast.Expr{}}
 	ast.Inspect(fi.Decl.Body, func(n ast.Node) bool {
 		switch x := n.(type) {
@@ -54,7 +60,9 @@ func NewDeriver(fi *FuncInfo) *Deriver {
 				d.bind(x.Value, x.X)
 			}
 		case *ast.CallExpr:
-			d.callEffects(x)
+			if callEffects {
+				d.callEffects(x)
+			}
 		}
 		return true
 	})
